@@ -17,6 +17,7 @@ package main
 import (
 	"go/ast"
 	"go/token"
+	"regexp"
 	"strconv"
 	"strings"
 )
@@ -116,7 +117,7 @@ func c11OnlyReturnsErr(b *ast.BlockStmt) bool {
 		switch x := st.(type) {
 		case *ast.ReturnStmt:
 		case *ast.IfStmt:
-			if !c11OnlyReturnsErr(x.Body) || x.Else != nil {
+			if x.Init != nil || !c11OnlyReturnsErr(x.Body) || x.Else != nil {
 				return false
 			}
 		default:
@@ -128,7 +129,58 @@ func c11OnlyReturnsErr(b *ast.BlockStmt) bool {
 
 type c11Tr struct {
 	c           *ctxT
-	afterLookup bool // `err` currently holds the result of `<p>Del, err := …GetDelegation(…)`
+	afterLookup bool              // `err` currently holds the result of `<p>Del, err := …GetDelegation(…)`
+	subst       map[string]string // while a helper method is inlined: parameter name -> argument source
+	depth       int
+}
+
+// nsrc: normalised source of a node with the parameters of the helper being inlined replaced by the arguments.
+func (t *c11Tr) nsrc(n ast.Node) string {
+	s := c11Norm(t.c.src(n))
+	for k, v := range t.subst {
+		s = regexp.MustCompile(`\b`+regexp.QuoteMeta(k)+`\b`).ReplaceAllString(s, v)
+	}
+	return s
+}
+
+// c11StableCond: conditions whose value cannot change while the guarded statements run (the validator object is a
+// local copy read once at the top of the handler)
+func c11StableCond(cond string) (pos, neg string) {
+	switch cond {
+	case "validator.IsBonded()":
+		return ".isBonded", ".notBonded"
+	case "!validator.IsBonded()":
+		return ".notBonded", ".isBonded"
+	}
+	return "", ""
+}
+
+// calls translates a call; a call of another method of the precompile (`m.helper(…)`) is inlined: its body is
+// translated with the parameters replaced by the arguments.
+func (t *c11Tr) calls(ce *ast.CallExpr, lhs []ast.Expr) []string {
+	if se, ok := ce.Fun.(*ast.SelectorExpr); ok && t.depth < 2 {
+		if id, ok := se.X.(*ast.Ident); ok && id.Name == "m" && se.Sel.Name != "handlerTransferShares" {
+			if fd := t.c.findFunc(c11Dir, "*", se.Sel.Name); fd != nil && fd.Body != nil && fd.Recv != nil && fd.Type.Params != nil {
+				var params []string
+				for _, f := range fd.Type.Params.List {
+					for _, n := range f.Names {
+						params = append(params, n.Name)
+					}
+				}
+				if len(params) == len(ce.Args) {
+					inner := &c11Tr{c: t.c, subst: map[string]string{}, depth: t.depth + 1}
+					for i, p := range params {
+						inner.subst[p] = t.nsrc(ce.Args[i])
+					}
+					return inner.block(fd.Body)
+				}
+			}
+		}
+	}
+	if s := t.call(ce, lhs); s != "" {
+		return []string{s}
+	}
+	return nil
 }
 
 // c11AssignsErr: the statement assigns the variable err.
@@ -151,15 +203,15 @@ func (t *c11Tr) call(ce *ast.CallExpr, lhs []ast.Expr) string {
 	nm := c11CallName(ce)
 	arg := func(i int) string {
 		if i < len(ce.Args) {
-			return c11Norm(c.src(ce.Args[i]))
+			return t.nsrc((ce.Args[i]))
 		}
 		return ""
 	}
 	last := func() string { return arg(len(ce.Args) - 1) }
-	unknown := func() string { return "(.unknown " + leanStr(c11Norm(c.src(ce))) + ")" }
+	unknown := func() string { return "(.unknown " + leanStr(t.nsrc((ce))) + ")" }
 	switch nm {
 	case "WithdrawDelegatorReward":
-		s := c11Norm(c.src(ce))
+		s := t.nsrc((ce))
 		if strings.Contains(s, "DelegatorAddress: sdk.AccAddress(from.Bytes()).String()") && strings.Contains(s, "ValidatorAddress: valAddr.String()") {
 			return "(.withdraw .from_)"
 		}
@@ -169,7 +221,7 @@ func (t *c11Tr) call(ce *ast.CallExpr, lhs []ast.Expr) string {
 		return unknown()
 	case "GetDelegation":
 		if len(lhs) >= 1 && arg(2) == "valAddr" {
-			switch c11Norm(c.src(lhs[0])) + "|" + arg(1) {
+			switch t.nsrc((lhs[0])) + "|" + arg(1) {
 			case "toDel|to.Bytes()":
 				return "(.getDel .to)"
 			case "fromDel|from.Bytes()":
@@ -184,7 +236,7 @@ func (t *c11Tr) call(ce *ast.CallExpr, lhs []ast.Expr) string {
 		return unknown()
 	case "GetDelegatorStartingInfo":
 		if len(lhs) >= 1 && arg(1) == "valAddr" {
-			switch c11Norm(c.src(lhs[0])) + "|" + arg(2) {
+			switch t.nsrc((lhs[0])) + "|" + arg(2) {
 			case "fromDelStartingInfo|from.Bytes()":
 				return "(.readInfo .from_)"
 			case "toDelStartingInfo|to.Bytes()":
@@ -193,7 +245,7 @@ func (t *c11Tr) call(ce *ast.CallExpr, lhs []ast.Expr) string {
 		}
 		return unknown()
 	case "GetValidatorCurrentRewards":
-		if len(lhs) >= 1 && c11Norm(c.src(lhs[0])) == "validatorCurrentRewards" && arg(1) == "valAddr" {
+		if len(lhs) >= 1 && t.nsrc((lhs[0])) == "validatorCurrentRewards" && arg(1) == "valAddr" {
 			return ".readCur"
 		}
 		return unknown()
@@ -230,14 +282,14 @@ func (t *c11Tr) call(ce *ast.CallExpr, lhs []ast.Expr) string {
 		return unknown()
 	case "NewDelegation":
 		if len(lhs) == 1 && len(ce.Args) == 3 {
-			if p := c11Party(c11Norm(c.src(lhs[0]))); p != "" && strings.HasSuffix(c11Norm(c.src(lhs[0])), "Del") {
+			if p := c11Party(t.nsrc((lhs[0]))); p != "" && strings.HasSuffix(t.nsrc((lhs[0])), "Del") {
 				return "(.setShares " + p + " " + c.c11SE(ce.Args[2]) + ")"
 			}
 		}
 		return unknown()
 	case "NewDelegatorStartingInfo":
 		if len(lhs) == 1 && len(ce.Args) == 3 {
-			l := c11Norm(c.src(lhs[0]))
+			l := t.nsrc((lhs[0]))
 			if l == "fromDelStartingInfo" || l == "toDelStartingInfo" {
 				hb := arg(2) == "uint64(ctx.BlockHeight())"
 				return "(.newInfo " + c11Party(l) + " " + c.c11PE(ce.Args[0]) + " " + c.c11SE(ce.Args[1]) + " " + strconv.FormatBool(hb) + ")"
@@ -253,7 +305,7 @@ func (t *c11Tr) call(ce *ast.CallExpr, lhs []ast.Expr) string {
 		return ""
 	}
 	// anything reached through a keeper / message server is state-relevant
-	s := c11Norm(c.src(ce))
+	s := t.nsrc((ce))
 	if strings.Contains(s, "Keeper.") || strings.Contains(s, "MsgServer.") {
 		return unknown()
 	}
@@ -266,19 +318,17 @@ func (t *c11Tr) simple(st ast.Stmt) (out []string, isBranch bool) {
 	switch x := st.(type) {
 	case *ast.ExprStmt:
 		if ce, ok := x.X.(*ast.CallExpr); ok {
-			if s := t.call(ce, nil); s != "" {
-				out = append(out, s)
-			}
+			out = append(out, t.calls(ce, nil)...)
 		}
 	case *ast.AssignStmt:
 		if len(x.Rhs) == 1 {
-			l0 := c11Norm(c.src(x.Lhs[0]))
+			l0 := t.nsrc((x.Lhs[0]))
 			if ce, ok := x.Rhs[0].(*ast.CallExpr); ok {
 				nm := c11CallName(ce)
-				// keeper calls and constructors
+				// keeper calls, constructors and helper methods
 				_ = nm
-				if s := t.call(ce, x.Lhs); s != "" {
-					return []string{s}, false
+				if ss := t.calls(ce, x.Lhs); len(ss) > 0 {
+					return ss, false
 				}
 			}
 			switch {
@@ -292,21 +342,21 @@ func (t *c11Tr) simple(st ast.Stmt) (out []string, isBranch bool) {
 				if id, ok := x.Rhs[0].(*ast.Ident); ok && (id.Name == "true" || id.Name == "false") {
 					out = append(out, "(.setFlag "+id.Name+")")
 				} else {
-					out = append(out, "(.unknown "+leanStr(c11Norm(c.src(st)))+")")
+					out = append(out, "(.unknown "+leanStr(t.nsrc((st)))+")")
 				}
 			case l0 == "previousPeriod":
 				out = append(out, "(.setPrev "+c.c11PE(x.Rhs[0])+")")
 			case l0 == "stakeToken":
 				out = append(out, "(.setStakeTok "+c.c11SE(x.Rhs[0])+")")
 			case l0 == "fromDel" || l0 == "toDel" || l0 == "fromDelStartingInfo" || l0 == "toDelStartingInfo" || l0 == "validator" || l0 == "shares":
-				out = append(out, "(.unknown "+leanStr(c11Norm(c.src(st)))+")")
+				out = append(out, "(.unknown "+leanStr(t.nsrc((st)))+")")
 			}
 		}
 	case *ast.IfStmt:
 		return nil, true
 	case *ast.DeclStmt, *ast.ReturnStmt, *ast.EmptyStmt:
 	default:
-		out = append(out, "(.unknown "+leanStr(c11Norm(c.src(st)))+")")
+		out = append(out, "(.unknown "+leanStr(t.nsrc((st)))+")")
 	}
 	return out, false
 }
@@ -329,7 +379,16 @@ func (t *c11Tr) block(b *ast.BlockStmt) []string {
 			if c11OnlyReturnsErr(is.Body) && is.Else == nil {
 				continue
 			}
-			out = append(out, "(.unknown "+leanStr("nested: if "+c11Norm(t.c.src(is.Cond)))+")")
+			if pos, neg := c11StableCond(t.nsrc(is.Cond)); pos != "" && is.Init == nil {
+				for _, x := range t.block(is.Body) {
+					out = append(out, "(.guarded "+pos+" "+x+")")
+				}
+				for _, x := range t.block(c11ElseBlock(is)) {
+					out = append(out, "(.guarded "+neg+" "+x+")")
+				}
+				continue
+			}
+			out = append(out, "(.unknown "+leanStr("nested: if "+t.nsrc((is.Cond)))+")")
 		}
 	}
 	return out
@@ -413,6 +472,10 @@ func (c *ctxT) c11Prog(body *ast.BlockStmt, start token.Pos) []string {
 			cnd = ".flag"
 		case cond == "!toDelFound":
 			cnd = ".notFlag"
+		case cond == "validator.IsBonded()":
+			cnd = ".isBonded"
+		case cond == "!validator.IsBonded()":
+			cnd = ".notBonded"
 		default:
 			if ce, ok := is.Cond.(*ast.CallExpr); ok {
 				if se, ok := ce.Fun.(*ast.SelectorExpr); ok && se.Sel.Name == "IsZero" && len(ce.Args) == 0 {
@@ -456,6 +519,14 @@ inductive PE
   | unknown (src : String)
 deriving Repr, DecidableEq
 
+inductive Cond
+  | lookupErr               -- err != nil right after a GetDelegation
+  | flag | notFlag          -- toDelFound / !toDelFound
+  | isBonded | notBonded    -- validator.IsBonded() of the validator object read at the start / its negation
+  | isZero (e : SE)         -- e.IsZero()
+  | unknown (src : String)
+deriving Repr, DecidableEq
+
 /-- non-branching statements, one per keeper call / assignment to a tracked local -/
 inductive Simple
   | withdraw (p : Party)              -- distrMsgServer.WithdrawDelegatorReward for p at valAddr
@@ -476,13 +547,7 @@ inductive Simple
   | incRef (e : PE)                   -- incrementReferenceCount(…, valAddr, e)
   | deleteInfo (p : Party)            -- distrKeeper.DeleteDelegatorStartingInfo(ctx, valAddr, p)
   | writeInfo (p src : Party)         -- distrKeeper.SetDelegatorStartingInfo(ctx, valAddr, p, <src>DelStartingInfo)
-  | unknown (src : String)
-deriving Repr, DecidableEq
-
-inductive Cond
-  | lookupErr               -- err != nil right after a GetDelegation
-  | flag | notFlag          -- toDelFound / !toDelFound
-  | isZero (e : SE)         -- e.IsZero()
+  | guarded (c : Cond) (x : Simple)   -- x inside a nested if c { … } (c is a condition that cannot change meanwhile)
   | unknown (src : String)
 deriving Repr, DecidableEq
 
